@@ -27,8 +27,15 @@ impl Text {
     /// gives the text back -- only the indexing below is used)
     #[verifier::external_body]
     pub fn split(&self, sep: char) -> (r: Pieces) ensures sep == '\t' ==> r.rest() == tab_pieces(self@) { unimplemented!() }
+    /// `str::split_whitespace` / `split_ascii_whitespace` (not used by the code today; present so that an edit using it is judged)
+    #[verifier::external_body]
+    pub fn split_whitespace(&self) -> (r: Pieces) ensures r.rest() == ws_pieces(self@) { unimplemented!() }
+    #[verifier::external_body]
+    pub fn split_ascii_whitespace(&self) -> (r: Pieces) ensures r.rest() == ws_pieces(self@) { unimplemented!() }
 }
 pub uninterp spec fn tab_pieces(t: Seq<char>) -> Seq<Seq<char>>;
+/// pieces cut at white space (what `split_whitespace` yields): unrelated to the tab-separated columns
+pub uninterp spec fn ws_pieces(t: Seq<char>) -> Seq<Seq<char>>;
 /// the iterator `Split<'_, char>`
 #[verifier::external_body]
 pub struct Pieces { _p: u8 }
